@@ -17,6 +17,8 @@ package parser
 // YAML-in-YAML re-parsing (yaml.Unmarshal of multi-line scalars inside parseNode) is stubbed to "not YAML".
 
 import (
+	"io"
+
 	"gopkg.in/yaml.v3"
 
 	"github.com/cloudflare/pint/internal/diags"
@@ -242,7 +244,14 @@ func VerifHarness_Equiv() {
 	}
 	verifReach("strict-valid")
 	p := Parser{isStrict: false, schema: PrometheusSchema}
-	rg := p.parseNode(doc, nil, nil, 0, 0, lines)
+	var rg []Group
+	if verifParam("viaparse") == 0 {
+		rg = p.parseNode(doc, nil, nil, 0, 0, lines)
+	} else {
+		f := verifRelaxedFile([]*yaml.Node{doc})
+		verifAssert(f.Error.Err == nil, "relaxed mode accepts the file")
+		rg = f.Groups
+	}
 	s, r := verifFlatten(sg), verifFlatten(rg)
 	if len(s) > 0 {
 		verifReach("strict-valid-with-rules")
@@ -348,9 +357,60 @@ func VerifHarness_Wrap() {
 	doc.Kind = yaml.DocumentNode
 	doc.Line, doc.Column = 1, 1
 	doc.Content = []*yaml.Node{root}
-	wrapped := verifFlatten(p.parseNode(doc, nil, nil, 0, 0, lines))
+	var wrapped []verifFound
+	nd := verifParam("viaparse")
+	if nd == 0 {
+		wrapped = verifFlatten(p.parseNode(doc, nil, nil, 0, 0, lines))
+	} else {
+		// through Parser.Parse's document loop: a file of nd copies of the document (the decoder is cut, see verifRelaxedFile)
+		want := base
+		docs := []*yaml.Node{doc}
+		for i := 1; i < nd; i++ {
+			docs = append(docs, doc)
+			want = append(want, base...)
+		}
+		base = want
+		f := verifRelaxedFile(docs)
+		verifAssert(f.Error.Err == nil, "relaxed mode accepts the file")
+		verifAssert(f.IsRelaxed, "the file is marked relaxed")
+		wrapped = verifFlatten(f.Groups)
+	}
 	if len(base) > 0 {
 		verifReach("base-has-rules")
 	}
 	verifAssertSameRules(base, wrapped, "wrapped rule list, relaxed")
+}
+
+// ---------- Parser.Parse's document loop ----------
+//
+// The YAML decoder is cut (symbolically and natively): Decode hands out the harness' documents one by one, then io.EOF.
+// What is executed is Parse's own loop: which arguments it gives parseNode per document, how it collects the groups.
+// The content reader is replaced by one that already holds the three lines the direct calls use.
+
+var (
+	verifDocs    []*yaml.Node
+	verifDocNext int
+)
+
+// verif:native-cut yaml_Decoder_Decode
+func verifStub_yaml_Decoder_Decode(dec *yaml.Decoder, v interface{}) error {
+	if verifDocNext >= len(verifDocs) {
+		return io.EOF
+	}
+	*(v.(*yaml.Node)) = *verifDocs[verifDocNext]
+	verifDocNext++
+	return nil
+}
+
+// symbolic run only (natively the real constructor runs; its decoder is never asked)
+func verifStub_yaml_NewDecoder(r io.Reader) *yaml.Decoder { return nil }
+
+func verifStub_newContentReader(r io.Reader) *ContentReader {
+	return &ContentReader{lines: []string{"a", "b", "c"}}
+}
+
+func verifRelaxedFile(docs []*yaml.Node) File {
+	verifDocs, verifDocNext = docs, 0
+	p := Parser{isStrict: false, schema: PrometheusSchema}
+	return p.Parse(nil)
 }
